@@ -5,10 +5,10 @@ H(r) == hist' = Append(hist, r)
 GInit == Init /\ hist = <<>>
 GNext ==
   /\ steps < MaxSteps
-  /\ \/ \E s \in Streams, kind \in {"normal", "exit", "resolve"}, p \in Ports, a \in Answers, mode \in Modes :
-          NewStream(s, kind, p, a, mode) /\ (att # "A" => a = "none" /\ mode = "imm")
-          /\ H([a |-> "NewStream", s |-> s, kind |-> kind, p |-> p, ans |-> a, mode |-> mode])
-     \/ \E s \in Streams : Answer(s) /\ H([a |-> "Answer", s |-> s])
+  /\ \/ \E s \in Streams, kind \in {"normal", "exit", "resolve"}, p \in Ports, a \in Answers, mode \in Modes, rf \in BOOLEAN :
+          NewStream(s, kind, p, a, mode, rf) /\ (att # "A" => a = "none" /\ mode = "imm")
+          /\ H([a |-> "NewStream", s |-> s, kind |-> kind, p |-> p, ans |-> a, mode |-> mode, rf |-> rf])
+     \/ \E s \in Streams, rf \in BOOLEAN : Answer(s, rf) /\ H([a |-> "Answer", s |-> s, rf |-> rf])
      \/ \E s \in Streams : StreamFailed(s) /\ H([a |-> "StreamFailed", s |-> s])
      \/ \E s \in Streams : LateClosed(s) /\ H([a |-> "LateClosed", s |-> s])
      \/ \E a \in {"A", "B", "P", "none"}, late \in BOOLEAN : SetAttacher(a, late) /\ H([a |-> "SetAttacher", who |-> a, late |-> late])
@@ -18,7 +18,7 @@ GNext ==
      \/ \E c \in Circs, to \in {"BUILDING", "BUILT", "GONE"} : CircStep(c, to) /\ H([a |-> "CircStep", c |-> c, to |-> to])
      \/ \E x \in Subs, pr \in Prios : AddSub(x, pr) /\ H([a |-> "AddSub", x |-> x, prio |-> pr])
      \/ \E x \in Subs : RemSub(x) /\ H([a |-> "RemSub", x |-> x])
-     \/ \E s \in Streams, kind \in {"normal", "exit", "resolve"}, p \in Ports, sa \in [Subs -> SubAnswers] :
-          NewStreamP(s, kind, p, sa) /\ H([a |-> "NewStreamP", s |-> s, kind |-> kind, p |-> p, sa |-> sa])
+     \/ \E s \in Streams, kind \in {"normal", "exit", "resolve"}, p \in Ports, sa \in [Subs -> SubAnswers], rf \in BOOLEAN :
+          NewStreamP(s, kind, p, sa, rf) /\ H([a |-> "NewStreamP", s |-> s, kind |-> kind, p |-> p, sa |-> sa, rf |-> rf])
 GSpec == GInit /\ [][GNext]_<<vars, hist>>
 ====
